@@ -13,6 +13,7 @@ import (
 	"fmt"
 	"os"
 	"os/exec"
+	"os/signal"
 	"path/filepath"
 	"runtime"
 	"sort"
@@ -112,6 +113,16 @@ func build(id string, m *meta, patch string) *built {
 			}
 		}
 		defer revert()
+		sigc := make(chan os.Signal, 1)
+		signal.Notify(sigc, syscall.SIGINT, syscall.SIGTERM, syscall.SIGHUP)
+		go func() {
+			if _, ok := <-sigc; ok {
+				revert()
+				os.RemoveAll(scratch)
+				os.Exit(2)
+			}
+		}()
+		defer func() { signal.Stop(sigc); close(sigc) }()
 		dieOrig := dieHook
 		dieHook = func() { revert(); unlock() }
 		defer func() { dieHook = dieOrig }()
@@ -231,7 +242,8 @@ func main() {
 		exit(0)
 	}
 	if *replay != "" {
-		exit(doReplay(b, id, *replay))
+		abs, _ := filepath.Abs(*replay)
+		exit(doReplay(b, id, abs))
 	}
 	if *selftest {
 		rc, _ := doSelfTest(b, id, *tier)
